@@ -11,6 +11,44 @@ GROUP = dict(
     rlimit=100,
     uses='use core::cmp::Ordering;\nuse core::marker::PhantomData;',
     canary='    axiom_string_from(); broadcast use axiom_ascii_to_lower; broadcast use axiom_view_of_str;',
+    post=_c.theory_text('segs_lemmas.rs') + '''
+/// C07, as stated, for every string the two phases accept: the reported namespace and subpath are '/'-joins of clean segments
+/// (none empty, none containing '/', subpath segments not '.' or '..'), or absent
+pub proof fn lemma_c07_of_phases(s: Seq<char>)
+    requires phase_a(s) is Ok, phase_b(phase_a(s)->Ok_0.rest) is Ok
+    ensures ({
+        let a = phase_a(s)->Ok_0;
+        let b = phase_b(a.rest)->Ok_0;
+        (b.ns.len() == 0 || exists|segs: Seq<Seq<char>>| #![auto] segs.len() > 0 && b.ns == join_segs(segs) && split_spec(b.ns, '/') == segs
+            && forall|i: int| 0 <= i < segs.len() ==> clean_ns_seg(#[trigger] segs[i]))
+        && (a.sub.len() == 0 || exists|segs: Seq<Seq<char>>| #![auto] segs.len() > 0 && a.sub == join_segs(segs) && split_spec(a.sub, '/') == segs
+            && forall|i: int| 0 <= i < segs.len() ==> clean_sub_seg(#[trigger] segs[i]))
+    })
+{
+    let a = phase_a(s)->Ok_0;
+    let b = phase_b(a.rest)->Ok_0;
+    // subpath
+    let s1 = trim_start_spec(s.subrange("pkg:"@.len() as int, s.len() as int), '/');
+    match rsplit_at(s1, '#').1 {
+        None => { assert(a.sub.len() == 0); },
+        Some(x) => {
+            let ps = split_spec(trim_spec(x, '/'), '/');
+            lemma_c07_subpath(ps);
+            lemma_sub_fold_shape(ps);
+            if sub_segs(ps).len() > 0 { assert(a.sub == join_segs(sub_segs(ps))); }
+        },
+    }
+    // namespace
+    let r1 = rsplit_at(a.rest, '@').0;
+    if last_index_of(r1, '/') >= 0 {
+        let x = r1.subrange(0, last_index_of(r1, '/'));
+        let ps = split_spec(trim_spec(x, '/'), '/');
+        lemma_c07_namespace(ps);
+        lemma_ns_fold_shape(ps);
+        if ns_segs(ps).len() > 0 { assert(b.ns == join_segs(ns_segs(ps))); }
+    } else { assert(b.ns.len() == 0); }
+}
+''',
     units=[_c.PURL_FIELD, _c.PARSE_ERROR, _c.QUALIFIER_KEY, _c.QUALIFIERS, _c.PURL_PARTS,
            _c.unit_of('qual', 'T.MixedQualifierKey'), _c.unit_of('qual', 'theory.qual'),
            _c.unit_of('qual', 'spec.Qualifiers'),
